@@ -422,6 +422,9 @@ _MODULES: Dict[str, Dict[str, Any]] = {
     "functools": {"reduce": None},
 }
 _MODULES["itertools"]["chain"] = lambda *a: [x for it in a for x in it]
+# groupby: the groups of the real iterator die when the outer iterator advances - materialised here group by group (each group a
+# one-shot iterator, as in the language), never by list(groupby(...)) which would hand out empty groups
+_MODULES["itertools"]["groupby"] = lambda it, key=None: [(k, iter(list(g))) for k, g in itertools.groupby(list(it), key)]
 _FROM_IMPORTS: Dict[Tuple[str, str], Any] = {("collections", "defaultdict"): DefaultDictStub, ("collections", "OrderedDict"): dict, ("ordered_set", "OrderedSet"): OrderedSetStub, ("math", "isnan"): math.isnan}
 
 _EXC = {n: getattr(__import__("builtins"), n) for n in ("ValueError", "KeyError", "IndexError", "RuntimeError", "TypeError", "AttributeError", "StopIteration", "AssertionError", "NotImplementedError", "ZeroDivisionError", "LookupError", "Exception")}
